@@ -682,7 +682,8 @@ func c17Call(c *Ctx, x *c17Ctx, call *ast.CallExpr, local map[types.Object]bool)
 			if f.Pkg() != nil {
 				p = f.Pkg().Path()
 			}
-			if (p == "errors" && f.Name() == "New") || (p == "fmt" && (f.Name() == "Errorf" || f.Name() == "Sprintf")) {
+			if (p == "errors" && f.Name() == "New") || (p == "fmt" && (f.Name() == "Errorf" || f.Name() == "Sprintf")) ||
+				(p == "slices" && f.Name() == "Insert") { // like append: its effect is the store of its result
 				return
 			}
 			r.Unknown("C17.1", key, c.Pos(call), "call to %s.%s in the section is not summarised", p, f.Name())
@@ -1120,6 +1121,12 @@ func c17InsertShape(info *types.Info, rhs ast.Expr) (idx ast.Expr, ok bool, why 
 	}
 	isE := func(e ast.Expr) bool { return an.FieldSel(info, an.Unparen(e), "UConn", "Extensions") }
 	oneCookie := func(e ast.Expr) bool {
+		e = an.Unparen(e)
+		if cv, ok := e.(*ast.CallExpr); ok && len(cv.Args) == 1 { // TLSExtension(&CookieExtension{…})
+			if tv, ok := info.Types[cv.Fun]; ok && tv.IsType() {
+				e = cv.Args[0]
+			}
+		}
 		u, ok := an.Unparen(e).(*ast.UnaryExpr)
 		if !ok || u.Op != token.AND {
 			return false
